@@ -647,6 +647,11 @@ func (e *Env) call(x *Expr) Val {
 			fail("bytes() of non-slice")
 		}
 		return Val{Addr: "(s_arr " + b.T + ")", Win: &window{arr: "(s_arr " + b.T + ")", off: "(s_off " + b.T + ")", n: "(s_len " + b.T + ")"}}
+	case "prefixof":
+		// prefixof(p, s): sequence p is a prefix of sequence s (native seq.prefixof)
+		return Val{T: "(seq.prefixof " + e.asSeq(e.tr(x.Args[0])) + " " + e.asSeq(e.tr(x.Args[1])) + ")", Sort: "Bool"}
+	case "suffixof":
+		return Val{T: "(seq.suffixof " + e.asSeq(e.tr(x.Args[0])) + " " + e.asSeq(e.tr(x.Args[1])) + ")", Sort: "Bool"}
 	case "min":
 		return Val{T: "(imin " + e.trInt(x.Args[0]) + " " + e.trInt(x.Args[1]) + ")", Sort: "Int"}
 	case "max":
